@@ -1,23 +1,13 @@
 /-
   C15 — the path-expression parser accepts exactly the documented grammar.
-  Property theorems only (helper lemmas: `Lemmas/PathParser.lean`).  Strings of any length.
+  Property theorems only (helper lemmas: `Lemmas/Path*.lean`; `Path.Canonical`: `Spec/PathCanonical.lean`).  Strings of any length.
 -/
 import BufrModel.Lang.PathParser
 import BufrModel.Spec.PathGrammar
+import BufrModel.Spec.PathCanonical
 import BufrModel.Lemmas.PathTop
+import BufrModel.Lemmas.PathCanonical
 namespace Bufr.PathLang
-
-/-- A path as the grammar can produce it. -/
-def Slice.Canonical : Slice → Prop
-  | .idx i => 0 ≤ i
-  | .range _ _ _ => True
-
-def idOk (i : List Char) : Prop := i ≠ [] ∧ ∀ c ∈ i, Spec.isSpecial c = false ∧ isWs c = false
-
-def Path.Canonical (p : Path) : Prop :=
-  (∃ s, p.subset = some s ∧ s.Canonical) ∧ p.comps ≠ [] ∧
-  (∀ c ∈ p.comps, isSep c.sep = true ∧ idOk c.id ∧ c.slice.Canonical) ∧
-  (∀ c, p.comps.head? = some c → c.sep ≠ '.')
 
 /-- The state machine accepts a string, with result `p`, exactly when the grammar derives it with
     the same components and slices: nothing is accepted that the grammar rejects, nothing the grammar
@@ -41,7 +31,8 @@ theorem C15_reject_is_path_error (s : List Char) (e : Err) : parse s = .error e 
 
 /-- Accepted strings yield canonical paths ... -/
 theorem C15_parse_canonical (s : List Char) (p : Path) : parse s = .ok p → p.Canonical := by
-  sorry
+  intro h
+  exact recognise_canonical s p ((C15_parse_iff_grammar s p).1 h)
 
 /-- ... printing a canonical path and parsing the printout gives the same path ... -/
 theorem C15_print_parse (p : Path) (h : p.Canonical) : parse (print p) = .ok p := by
